@@ -27,6 +27,17 @@ S->C : every per-axis class exported by Gen_PyramidAssembly (o, n, f, outcome,
        references); the reference downscaler is constructed directly from its
        class, never through get_downscaler.  Directed jobs: "auto" with an
        outside value on odd-sized generator infos through both entry paths.
+       Volumes: pairwise distinct values, random values (with empty margins),
+       LABEL IMAGES (few labels incl. the top of the type's range, large
+       uniform regions, further channels identical / mirrored / over the same
+       labels: multi-channel compressed_segmentation blocks of different
+       channels then hold the same label sets) and, for averaging, uint64
+       values from 2^53 to 2^64 - 1 on odd sizes (float64 arithmetic is
+       inexact there, yet chunk-wise and whole-array results must coincide
+       because the property defines the level by ONE application of the method
+       to the whole scale); uint64 voxels travel to TLC as three 30/30/4-bit
+       integers each.  Directed jobs of both kinds on generator infos through
+       compute-scales main and the library.
        Function-API runs RE-USE one downscaler object per (method, outside
        value, info type) for all pyramids of the run (different data types,
        channel counts, sizes); a directed sequence uint8, uint16, float32,
@@ -189,6 +200,10 @@ def pick_variant(ctx, voxels, cseg_ok=True, scales=None):
     else:
         storage = rng.choice(STORAGES[:3])
     kind = "random" if (averaging and rng.random() < 0.6) else "unique"
+    if not averaging and rng.random() < (0.75 if (enc == "compressed_segmentation" and channels >= 2) else 0.35):
+        kind = "labels"     # label image: uniform regions, channels sharing their label sets
+    if averaging and dtype == "uint64" and rng.random() < 0.6:
+        kind = "big"        # values >= 2^53 (up to the top of the range): float64 averaging is inexact
     # --outside-value of the averaging method (border blocks completed with it)
     outside = rng.choice([None, None, 0, 7]) if averaging else None
     if method == "auto":
@@ -586,6 +601,42 @@ def all_in_one_jobs(ctx):
     return out
 
 
+DIRECTED_VOLUMES = [
+    # (fixed generator job, method, dtype, channels, encoding, kind, via, storage, outside)
+    (0, "stride", "uint32", 2, "compressed_segmentation", "labels", "cli", "gzip", None),
+    (0, "majority", "uint64", 3, "compressed_segmentation", "labels", "lib", "deep", None),
+    (14, "stride", "uint64", 2, "compressed_segmentation", "labels", "cli", "flat", None),
+    (15, "majority", "uint32", 2, "compressed_segmentation", "labels", "lib", "sharded", None),
+    (12, "auto", "uint32", 3, "compressed_segmentation", "labels", "cli", "deep", None),
+    (0, "average", "uint64", 1, "raw", "big", "lib", "deep", None),
+    (14, "average", "uint64", 2, "raw", "big", "cli", "gzip", None),
+    (15, "auto", "uint64", 1, "raw", "big", "cli", "flat", 7),
+    (1, "average", "uint64", 1, "raw", "big", "lib", "deep", 0),
+]
+
+
+def directed_volume_jobs(ctx, gen_jobs):
+    """generator infos (generate-scales-info arithmetic) with (a) multi-channel
+    compressed_segmentation label images whose channels share label sets,
+    (b) uint64 images with values >= 2^53 on odd sizes under averaging"""
+    by_idx = {j["fixed"]: j for j in gen_jobs if j.get("fixed") is not None}
+    out = []
+    for idx, method, dtype, channels, enc, kind, via, storage, outside in DIRECTED_VOLUMES:
+        j = by_idx.get(idx)
+        if j is None:
+            continue
+        if storage == "sharded" and not cubic(j["scales"]):
+            storage = "deep"
+        dj = {k: j[k] for k in ("axes3", "scales", "class", "gen", "input")}
+        dj.update(origin="directed-volume",
+                  variant={"method": method,
+                           "itype": "segmentation" if enc == "compressed_segmentation" else "image",
+                           "dtype": dtype, "channels": channels, "encoding": enc, "storage": storage,
+                           "kind": kind, "outside": outside, "via": via, "explicit_auto": False})
+        out.append(dj)
+    return out
+
+
 def directed_jobs(ctx, gen_jobs):
     """default method "auto" + outside value on odd-sized infos of the real
     generator, through both entry paths"""
@@ -639,6 +690,9 @@ def run(ctx):
         "the reference downscaler is the documented class constructed directly "
         "(AveragingDownscaler(outside_value) / MajorityDownscaler / StridingDownscaler); for the default "
         "method 'auto' the documented rule (image -> average, otherwise stride) is applied by TLC",
+        "uint64 averaging above 2^53: the reference is the implementation's own class applied to the whole "
+        "scale, so the float64 inexactness recorded as a C07 known finding is on both sides; only a "
+        "dependence on the chunking is reported",
         "one downscaler object may serve several pyramids (function API): the property does not tie a "
         "downscaler to one data type",
         "tool level (compute-scales, volume-to-precomputed-pyramid main): a returned status None / 0 means "
@@ -655,6 +709,7 @@ def run(ctx):
     work = ctx.scratch("verif_pyr_")
     gen_jobs = generator_jobs(ctx)
     jobs = (handmade_jobs(ctx, table) + gen_jobs + directed_jobs(ctx, gen_jobs)
+            + directed_volume_jobs(ctx, gen_jobs)
             + shared_object_jobs(ctx, gen_jobs) + unprocessable_cli_jobs(ctx, table) + all_in_one_jobs(ctx))
     level_cases = []
     import time
@@ -683,6 +738,7 @@ def run(ctx):
                          "cubic": sum(1 for j in jobs if j["origin"] == "cubic"),
                          "generator": sum(1 for j in jobs if j["origin"] == "generator"),
                          "directed_auto": sum(1 for j in jobs if j["origin"] == "directed-auto"),
+                         "directed_volume": sum(1 for j in jobs if j["origin"] == "directed-volume"),
                          "directed_shared_object": sum(1 for j in jobs if j["origin"] == "directed-shared-object"),
                          "directed_unprocessable_cli": sum(1 for j in jobs if j["origin"] == "directed-unprocessable"),
                          "directed_foreign_cli": sum(1 for j in jobs if j["origin"] == "directed-foreign"),
